@@ -71,6 +71,7 @@ type decObs struct {
 	Err     string   `json:"err,omitempty"`
 	Panic   string   `json:"panic,omitempty"`
 	Hdrs    []kv     `json:"hdrs"`
+	HdrSigs []kv     `json:"hdr_sigs"`
 	Args    []tv     `json:"args"`
 	Eq      []string `json:"eq"` // property oracle per argument ("" = equal)
 	HdrEq   []string `json:"hdr_eq"`
@@ -85,6 +86,7 @@ type cdecObs struct {
 	Stack   string   `json:"stack,omitempty"`
 	Panic   string   `json:"panic,omitempty"`
 	Hdrs    []kv     `json:"hdrs"`
+	HdrSigs []kv     `json:"hdr_sigs"`
 	Eq      []string `json:"eq"`
 }
 
@@ -103,30 +105,32 @@ type jenv struct {
 }
 
 type c07Obs struct {
-	ID        int      `json:"id"`
-	BuildErr  string   `json:"build_err,omitempty"`
-	Heap      string   `json:"heap"`
-	ArgsSx    []string `json:"args_sx"`
-	HdrsSx    []kv     `json:"hdrs_sx"`
-	ResSx     []string `json:"res_sx"`
-	RhdrsSx   []kv     `json:"rhdrs_sx"`
-	Unordered bool     `json:"unordered,omitempty"`
-	Unsup     string   `json:"unsup,omitempty"`
-	TypeNames []string `json:"type_names"`
-	Lower     []kv     `json:"lower"` // strings.ToLower of every name involved (hex -> hex)
-	Req       encObs   `json:"req"`
-	Dec       decObs   `json:"dec"`
-	OrArgs    []tv     `json:"or_args"`
-	OrHdrs    []kv     `json:"or_hdrs"`
-	Resp      encObs   `json:"resp"`
-	RespH     encObs   `json:"resp_handle"`
-	HandleLog []string `json:"handle_log"` // invocations seen by the scripted functions during Handle
-	Cdec      cdecObs  `json:"cdec"`
-	OrRes     []tv     `json:"or_res"`
-	OrRhdrs   []kv     `json:"or_rhdrs"`
-	Zeros     []tv     `json:"zeros"`
-	JReq      *jenv    `json:"jreq,omitempty"`
-	JResp     *jenv    `json:"jresp,omitempty"`
+	ID         int      `json:"id"`
+	BuildErr   string   `json:"build_err,omitempty"`
+	Heap       string   `json:"heap"`
+	ArgsSx     []string `json:"args_sx"`
+	HdrsSx     []kv     `json:"hdrs_sx"`
+	ResSx      []string `json:"res_sx"`
+	RhdrsSx    []kv     `json:"rhdrs_sx"`
+	Unordered  bool     `json:"unordered,omitempty"`
+	Unsup      string   `json:"unsup,omitempty"`
+	TypeNames  []string `json:"type_names"`
+	Lower      []kv     `json:"lower"` // strings.ToLower of every name involved (hex -> hex)
+	Req        encObs   `json:"req"`
+	Dec        decObs   `json:"dec"`
+	OrArgs     []tv     `json:"or_args"`
+	OrHdrs     []kv     `json:"or_hdrs"`
+	OrHdrSigs  []kv     `json:"or_hdr_sigs"`
+	Resp       encObs   `json:"resp"`
+	RespH      encObs   `json:"resp_handle"`
+	HandleLog  []string `json:"handle_log"` // invocations seen by the scripted functions during Handle
+	Cdec       cdecObs  `json:"cdec"`
+	OrRes      []tv     `json:"or_res"`
+	OrRhdrs    []kv     `json:"or_rhdrs"`
+	OrRhdrSigs []kv     `json:"or_rhdr_sigs"`
+	Zeros      []tv     `json:"zeros"`
+	JReq       *jenv    `json:"jreq,omitempty"`
+	JResp      *jenv    `json:"jresp,omitempty"`
 }
 
 type built struct {
@@ -257,8 +261,9 @@ func runCase(line []byte, out *json.Encoder) error {
 	obs.Dec.Method = methodID(serviceCtx.Method)
 	obs.Dec.NilArgs = decArgs == nil
 	obs.Dec.Hdrs = sortedKV(serviceCtx.RequestHeaders().ToMap(), unfoldI)
+	obs.Dec.HdrSigs = sortedKV(serviceCtx.RequestHeaders().ToMap(), typeSig)
 	for i, a := range decArgs {
-		obs.Dec.Args = append(obs.Dec.Args, tv{Ty: typeName(a), V: unfoldI(a)})
+		obs.Dec.Args = append(obs.Dec.Args, tv{Ty: typeName(a), V: unfoldI(a), Sig: typeSig(a)})
 		if i < len(b.args) {
 			obs.Dec.Eq = append(obs.Dec.Eq, equalTo(b.args[i], a))
 		}
@@ -308,7 +313,10 @@ func runCase(line []byte, out *json.Encoder) error {
 		} else if jerrs[i] != "" {
 			e.Err = jerrs[i]
 		} else {
-			e.V, e.Eq = unfoldI(joint[i]), equalTo(b.args[i], joint[i])
+			e.V, e.Eq, e.Sig = unfoldI(joint[i]), equalTo(b.args[i], joint[i]), typeSig(joint[i])
+		}
+		if joint == nil && se == "" {
+			e.Sig = typeSig(so)
 		}
 		obs.OrArgs = append(obs.OrArgs, e)
 	}
@@ -333,6 +341,7 @@ func runCase(line []byte, out *json.Encoder) error {
 					obs.OrHdrs = append(obs.OrHdrs, kv{h.K, "ERR " + e})
 				} else {
 					obs.OrHdrs = append(obs.OrHdrs, kv{h.K, unfoldI(om[unhexs(h.K)])})
+					obs.OrHdrSigs = append(obs.OrHdrSigs, kv{h.K, typeSig(om[unhexs(h.K)])})
 				}
 			}
 		}
@@ -428,8 +437,9 @@ func runCase(line []byte, out *json.Encoder) error {
 		}
 	})
 	obs.Cdec.Hdrs = sortedKV(clientCtx2.ResponseHeaders().ToMap(), unfoldI)
+	obs.Cdec.HdrSigs = sortedKV(clientCtx2.ResponseHeaders().ToMap(), typeSig)
 	for i, r := range results {
-		obs.Cdec.Results = append(obs.Cdec.Results, tv{Ty: typeName(r), V: unfoldI(r)})
+		obs.Cdec.Results = append(obs.Cdec.Results, tv{Ty: typeName(r), V: unfoldI(r), Sig: typeSig(r)})
 		if len(clientCtx2.ReturnType) == 1 && len(b.res) != 1 {
 			continue // one declared type for none / several results: compared by the check through the oracle
 		}
@@ -447,7 +457,7 @@ func runCase(line []byte, out *json.Encoder) error {
 			if e != "" {
 				obs.OrRes = append(obs.OrRes, tv{Ty: rts[0].String(), Err: e})
 			} else {
-				t := tv{Ty: rts[0].String(), V: unfoldI(o)}
+				t := tv{Ty: rts[0].String(), V: unfoldI(o), Sig: typeSig(o)}
 				if len(b.res) == 1 {
 					t.Eq = equalTo(b.res[0], o)
 				}
@@ -480,7 +490,10 @@ func runCase(line []byte, out *json.Encoder) error {
 			} else if jerrs[i] != "" {
 				e.Err = jerrs[i]
 			} else {
-				e.V, e.Eq = unfoldI(joint[i]), equalTo(r, joint[i])
+				e.V, e.Eq, e.Sig = unfoldI(joint[i]), equalTo(r, joint[i]), typeSig(joint[i])
+			}
+			if joint == nil && se == "" {
+				e.Sig = typeSig(so)
 			}
 			obs.OrRes = append(obs.OrRes, e)
 		}
@@ -491,6 +504,7 @@ func runCase(line []byte, out *json.Encoder) error {
 			obs.OrRhdrs = append(obs.OrRhdrs, kv{h.K, "ERR " + e})
 		} else {
 			obs.OrRhdrs = append(obs.OrRhdrs, kv{h.K, unfoldI(o)})
+			obs.OrRhdrSigs = append(obs.OrRhdrSigs, kv{h.K, typeSig(o)})
 		}
 	}
 	for _, t := range rts {
